@@ -259,8 +259,9 @@ def run_sequence(env, seed, part, keep=None):
             req, tags, base, edits = gen.next(); cur = (req['fn'], tags, base, edits); prefix_len = len(mon.reqs)
             r = mon.call(req, '+'.join(tags) if tags else ('well-formed-after-hostile' if hostile else 'well-formed'))
             gen.observe(req, r); ncalls += 1; hostile += bool(tags)
-            if tags and r['rv'] == 0: hobjs.update(h for h in (r.get('h'), r.get('hpub'), r.get('hpriv')) if h)
-            if req['fn'] == 'C_CopyObject' and r['rv'] == 0 and r.get('h'): (hobjs if req.get('o') in hobjs else copies).add(r['h'])
+            if req['fn'] == 'C_CopyObject':
+                if r['rv'] == 0 and r.get('h'): (hobjs if (req.get('o') in hobjs or any(t.startswith('tmpl=') for t in tags)) else copies).add(r['h'])
+            elif tags and r['rv'] == 0: hobjs.update(h for h in (r.get('h'), r.get('hpub'), r.get('hpriv')) if h)
             if r['rv'] == 0 and req['fn'] in FG.INIT_OP and 'key' in req: opkey[req.get('s')] = req['key']
             for t in tags: tagset.add((req['fn'], t))
             part.count('rv:' + r['rvname'])
@@ -271,7 +272,7 @@ def run_sequence(env, seed, part, keep=None):
         fn = e.fn or cur[0]
         if cur[0] in ('setup', 'epilogue'): key, sig = f"{fn}|{'well-formed' if cur[0] == 'setup' else 'well-formed-after-hostile'}|{death_sig(e)}", None
         else:
-            q = mon.reqs[-1]; uses = {q.get(f) for f in ('o', 'key', 'wkey', 'ukey')} | {opkey.get(q.get('s'))}
+            q = mon.reqs[-1]; uses = ({q.get(f) for f in ('o', 'key', 'wkey', 'ukey')} | ({opkey.get(q.get('s'))} if q.get('fn') in FG.DATA_PHASE else set())) - {None}
             # a death while USING an object that a hostile template made (or, on the db back-end, that C_CopyObject damaged) is classified by that, whatever else the dying call carried
             if uses & hobjs: key, sig = f'{fn}|use-of-hostile-object|{death_sig(e)}', None
             elif uses & copies: key, sig = f'{fn}|use-of-copied-object|{death_sig(e)}', None
